@@ -9,7 +9,7 @@ CONSTANTS
   DtSet = {1}
   AskSet = {1, 2, 3}
   MinSet = {1, 2, 3}
-  ShapeSet = {"exact", "missing", "extra", "wrongId"}
+  ShapeSet = {"exact", "missing", "extra", "wrongId", "perm", "dup", "dupAdj"}
   MaxH = 7
 INIT InitActive
 NEXT Next
